@@ -432,7 +432,7 @@ def c16(ctx):
     start(ctx)
     rng = random.Random(ctx.seed + 1)
     fm = tiers(ctx, gen.TRANS_FMTS_Q, gen.TRANS_FMTS_T)
-    extra = gen.exp_threshold_lines(rng, fm) + gen.log_near_one_lines(rng, fm, tiers(ctx, 12, 60)) + gen.exp_narrow_wide_lines(rng, tiers(ctx, 40, 400)) + gen.exp_top_binade_lines(tiers(ctx, [11, 12, 13], [9, 10, 11, 12, 13, 14, 15, 16]))
+    extra = gen.exp_threshold_lines(rng, fm) + gen.log_near_one_lines(rng, fm, tiers(ctx, 12, 60)) + gen.exp_narrow_wide_lines(rng, tiers(ctx, 40, 400)) + gen.exp_top_binade_lines(tiers(ctx, [11, 12, 13], [9, 10, 11, 12, 13, 14, 15, 16])) + gen.sigmoid_negative_lines(rng, tiers(ctx, 3000, 30000))
     _fn_check(ctx, ["exp", "log", "sigmoid"], "exp-log-sigmoid", extra)
     ctx.assumptions.append("accuracy clause: searched with mpmath at 4x precision (no theorem); special-operand clauses: theorems")
     return done(ctx)
